@@ -2,6 +2,7 @@
 no ambient nondeterminism (time, env, threads, randomness) in the generate path; no
 mutable cross-document state."""
 import re
+import injective
 from facts import walk, children, short, pp
 import hirutil as H
 from core import load_table
@@ -449,6 +450,51 @@ def loop_body_effects(crate, fn, loop, T):
     return out
 
 
+
+MAP_TARGET = re.compile(r'(std::collections::(HashMap|BTreeMap)|indexmap::IndexMap)<')
+ITEM_KEEPING = {'iter', 'iter_mut', 'into_iter', 'filter', 'cloned', 'copied', 'by_ref', 'skip', 'take', 'rev', 'peekable', 'chain', 'drain', 'skip_while', 'take_while', 'inspect'}
+ITEM_CHANGING = {'map', 'filter_map', 'flat_map', 'map_while'}
+
+
+def item_key_bindings(pat):
+    """hids that hold the key of a source item bound by pat: slot 0 of a pair pattern, else the whole item."""
+    p = pat
+    while p.get('k') in ('PRef', 'PDeref'):
+        p = p['p']
+    if p.get('k') == 'PTup' and len(p['subs']) == 2:
+        return {b['hid'] for b in H.pat_bindings(p['subs'][0])}
+    return {b['hid'] for b in H.pat_bindings(pat)}
+
+
+def collected_key(KI, fn, chain):
+    """(ok, why) for the keys of the pairs a (hash-ordered) iterator chain hands to a map."""
+    e = chain
+    while True:
+        e = H.strip_refs(e) if e.get('k') == 'AddrOf' else e
+        if e.get('k') != 'MCall':
+            return True, 'the items of the source as they are (keys of a map are distinct)'
+        m = e.get('m')
+        if m in ITEM_KEEPING:
+            e = e['recv']
+            continue
+        if m in ITEM_CHANGING:
+            cl = next((a for a in e['args'] if a.get('k') == 'Closure'), None)
+            if cl is None or len(cl['params']) != 1:
+                return False, 'item-producing adaptor %s() without a one-parameter closure' % m
+            # the closure must be the only item-changing step between the source and the map
+            r = e['recv']
+            while r.get('k') == 'MCall' and r.get('m') in ITEM_KEEPING:
+                r = r['recv']
+            if r.get('k') == 'MCall' and r.get('m') in ITEM_CHANGING:
+                return False, 'two item-changing adaptors in a row (%s after %s): form not understood' % (m, r.get('m'))
+            keys = item_key_bindings(cl['params'][0])
+            rets = [x for x in H.return_exprs(cl['body']) if not injective._diverges(injective._peel(x)) and not injective._none_like(x)]
+            if len(rets) != 1:
+                return False, 'the closure has %d alternative results' % len(rets)
+            return KI.inj(fn, rets[0], keys, cl, slot=0)
+        return True, 'the items of `%s` as they are' % pp(e, maxlen=40)
+
+
 PASS_THROUGH = {'Let', 'LetCond', 'Semi', 'Expr', 'Arm', 'Closure', 'Ret', 'Loop', 'Break'}
 PATTERN_KINDS = {'Bind', 'Wild', 'PTS', 'PTup', 'PStruct', 'PRef', 'POr', 'PLit', 'PPath', 'PDeref', 'PRange', 'PSlice'}
 
@@ -457,6 +503,9 @@ def analyse_fn(crate, fn, st, exc, used_exc, emit):
     """One pass over a fn. Updates the interprocedural state; when `emit` is a Check, records obligations.
     Returns (number of consumption points, number of sort sanitisers)."""
     T = Taint(crate, fn, st)
+    KI = getattr(crate, '_ki', None)
+    if KI is None:
+        KI = crate._ki = injective.KeyInj(crate, load_table('injective_fns.json'))
     fpath = fn['path']
     fshort = short(fpath)
     in_wrapper_impl = bool(fn.get('impl_self') and _type_tainted(fn['impl_self'], st.adts))
@@ -487,6 +536,30 @@ def analyse_fn(crate, fn, st, exc, used_exc, emit):
             if T.coll_type(it) or T.t(it):
                 n_sources += 1
                 effs = loop_body_effects(crate, fn, p, T)
+                # keyed writes into a map that outlives the iteration: the key must be an injective function of the item's key
+                inside = {b.get('hid') for b in walk(p['body']) if b.get('k') == 'Bind'}
+                lkeys = item_key_bindings(p['pat'])
+                for c in H.calls_in(p['body']):
+                    if c.get('k') != 'MCall' or c.get('m') not in ('insert', 'entry') or not c['args']:
+                        continue
+                    rt = (crate.ty(c['recv'], adjusted=True) or crate.ty(c['recv']) or '')
+                    if not MAP_TARGET.search(rt):
+                        continue
+                    rl = H.root_local(c['recv'])
+                    if rl is not None and rl.get('hid') in inside:
+                        continue
+                    ok8, why8 = KI.inj(fn, c['args'][0], lkeys, p)
+                    ob('R8.8', mkkey('key-injective|%s|for|%s' % (fshort, c['m'])), ok8, crate.loc(c), ('map key: ' + why8) if ok8 else
+                       'two items of the hash-ordered loop can be stored under one key, and which one survives depends on hash order: ' + why8)
+                # pairs pushed onto a list that is keyed later on: same requirement for their first component
+                for c in H.calls_in(p['body']):
+                    if c.get('k') == 'MCall' and c.get('m') == 'push' and c['args'] and H.strip_refs(c['args'][0]).get('k') == 'Tup' and len(H.strip_refs(c['args'][0])['es']) == 2:
+                        rl = H.root_local(c['recv'])
+                        if rl is not None and rl.get('hid') in inside:
+                            continue
+                        ok8, why8 = KI.inj(fn, H.strip_refs(c['args'][0]), lkeys, p, slot=0)
+                        ob('R8.8', mkkey('pair-key-injective|%s|for|push' % fshort), ok8, crate.loc(c), ('first component: ' + why8) if ok8 else
+                           'pairs collected in hash order whose first component is not an injective function of the item key: ' + why8)
                 if not effs:
                     ob('R8.1', mkkey('%s|for|%s' % (fshort, pp(it, maxlen=50))), True, crate.loc(p),
                        'for-body has no early exit and mutates only maps/sets/diagnostics/loop-local state')
@@ -575,6 +648,14 @@ def analyse_fn(crate, fn, st, exc, used_exc, emit):
             inner = m.group(1) if m else target
             if UNORDERED_TARGET.search(inner):
                 ob('R8.1', key, True, loc, 'collected into an unordered/sorted container: %s' % target[:80])
+                if MAP_TARGET.search(inner):
+                    chain = p['recv'] if (pk == 'MCall' and name not in ('extend', 'append')) else (p['args'][0] if p.get('args') else None)
+                    if chain is None:
+                        ob('R8.8', 'key-injective|' + key, False, loc, 'map filled from a hash-ordered source: form not understood')
+                    else:
+                        ok8, why8 = collected_key(KI, fn, chain)
+                        ob('R8.8', 'key-injective|' + key, ok8, loc, ('map key: ' + why8) if ok8 else
+                           'two items of the hash-ordered source can land on one key of the map, and which one survives depends on hash order: ' + why8)
             elif ek in exc:
                 used_exc.add(ek)
                 ob('R8.1', key, True, loc, 'reviewed exception: ' + exc[ek]['reason'])
@@ -607,10 +688,13 @@ def run(ck):
         'Each point where the order leaves the tracked world (a consumer) must be a sanitiser (sort on a total key), an '
         'order-insensitive sink (collect into a map/set, all/any/count, diagnostics) or a reviewed exception; `for` bodies over hash '
         'order must have no early exit and mutate only maps/sets/diagnostics. Also: no ambient nondeterminism callee '
-        '(time/env/thread/random) anywhere in lib, CLI lib or bin outside reviewed rows; statics are immutable lazies.')
+        '(time/env/thread/random) anywhere in lib, CLI lib or bin outside reviewed rows; statics are immutable lazies. R8.8: wherever items of a '
+        'hash-ordered source are stored in a map (collect / extend / insert / entry), the key expression is read backwards and must be an '
+        'injective function of the item key (views, projections, concatenation with an invariant, functions of this crate with one '
+        'non-None result, reviewed rows): otherwise two items can share a key and hash order decides which survives.')
     ck.assumptions = [
         'diagnostics are compared as a set (the property says so), hence Diagnostics::push is order-insensitive',
-        'inserting into a HashMap/HashSet/BTreeMap/BTreeSet from a hash-ordered loop is treated as insensitive (keys derived injectively from distinct map keys)',
+        'inserting into a HashMap/BTreeMap from a hash-ordered source is insensitive because the keys are distinct: R8.8 derives that (the key is an injective function of the source key) up to the reviewed rows of tables/injective_fns.json; sets need no such argument',
         'read_dir order and duplicate type names inside one directory are inputs, not nondeterminism',
         'dependencies (tree-sitter, quick-xml, serde_json, itertools) are deterministic',
     ]
@@ -625,6 +709,7 @@ def run(ck):
     ck.rule('R8.1k', 'a keyed sort sanitises only if its key is total on the items (projects the map key) or is a reviewed row')
     ck.rule('R8.4', 'no ambient nondeterminism source (time, env vars, threads, randomness) is called outside reviewed rows')
     ck.rule('R8.5', 'no mutable global state: statics are immutable lazies only')
+    ck.rule('R8.8', 'items of a hash-ordered source are stored in a map under keys that are an injective function of their own key')
 
     n_sources = 0
     n_sorts = 0
@@ -653,6 +738,10 @@ def run(ck):
     ck.extra['stale_table_rows'] = [list(k) for k in exc if k not in used_exc]
     ck.floor('R8.1', n_sources, 30, 'hash-ordered consumption points')
     ck.floor('R8.1k', n_sorts, 10, 'sort sanitisers')
+    n88 = sum(1 for o in ck.obligations if o['rule'] == 'R8.8')
+    ck.floor('R8.8', n88, 12, 'keyed writes into maps from hash-ordered sources')
+    ki = getattr(F.lib, '_ki', None)
+    ck.extra['stale_injective_rows'] = sorted(set(ki.rows) - ki.used) if ki is not None else []
 
     # R8.4 ambient nondeterminism (MIR callees, all three crates)
     allowed_ambient = {(r['fn'], r['callee']): r for r in table['ambient_allowed']}
